@@ -27,6 +27,7 @@ var Gates = map[string]string{
 	"let.composite-load":        "F32 `let x = <composite in a buffer/variable>` is not snapshotted: later reads of x see later stores",
 	"abstract.neg-neg":          "F33 `-(-N)` in an abstract const-expression is evaluated as float and its bits stored in an integer",
 	"index.dynamic-on-value":    "F34 SPIR-V: dynamic indexing of a let-bound composite spills it inside the first using block; later uses read an undefined variable",
+	"atomic.store-expr":         "F46 atomicStore(&a, expr): the Store precedes the Emit of its value expression (ill-formed IR)",
 	"override-nonarith-op":      "F09 ProcessOverrides evaluates only + - * /",
 }
 
